@@ -388,10 +388,8 @@ def run(ctx):
     nviol = 0
     for k, (d, lab, o, io) in enumerate(zip(docs, labels, outs, idouts)):
         t = jload(o)
-        if 'crash' in t or 'panic' in t:
-            ctx.violation("parsing crashed on %s: %s" % (lab, str(t)[:200]), dict(doc=d, result=t))
-            continue
         if 'root' not in t:
+            # rejected, or the parser itself crashed (totality is C01's matter): nothing to check here
             hist['rejected'] += 1
             trees.append(None)
             ctx.note_case('rej/' + lab, nontrivial=False)
